@@ -2,7 +2,10 @@
 
 package flyt
 
-import "context"
+import (
+	"context"
+	"time"
+)
 
 // C02 — retry budget and fallback are exact.
 
@@ -88,4 +91,36 @@ func VH_C02_struct() {
 			vAssert(err != nil && n.posts == 0, "fallback-error-replaces-the-exec-outcome")
 		}
 	}
+}
+
+// with a real deadline context and a retry wait (virtual clock): as long as the context has not
+// expired the budget and fallback rules are unchanged — in particular a deadline that is merely
+// *approaching* does not entitle the framework to give up early
+func VH_C02_deadline() {
+	maxN := vParam("N", 3)
+	N := vNondet[int]("N")
+	vAssume(2 <= N && N <= maxN)
+	vUnwind(maxN + 2)
+	w := vNondet[time.Duration]("w")
+	vAssume(w > 0 && w <= 1<<40)
+	D := vNondet[time.Duration]("deadline")
+	vAssume(D > 0 && D <= 1<<42)
+	ctx, cancel := context.WithTimeout(context.Background(), D)
+	defer cancel()
+	n := &c02Node{BaseNode: NewBaseNode(WithMaxRetries(N), WithWait(w)), prepTok: &vError{id: 7}}
+	_, err := Run(ctx, n, NewSharedStore())
+	if ctx.Err() != nil {
+		vCover("deadline-expired-during-the-run")
+	} else {
+		vCover("deadline-not-reached")
+	}
+	// the fallback is for exhausted budgets only, expired deadline or not
+	vAssert(n.fb == 0 || n.calls == N, "fallback-only-after-all-N-attempts-failed")
+	if n.okAt > 0 {
+		vAssert(n.calls == n.okAt && n.fb == 0, "stop-at-first-success")
+	}
+	if ctx.Err() == nil && n.okAt == 0 {
+		vAssert(n.calls == N && n.fb == 1, "exactly-N-attempts-then-fallback")
+	}
+	_ = err
 }
